@@ -943,3 +943,23 @@ def flow_expand_atom(fl, a, node):
         return fl.expand(a, node)
     except Exception:
         return a
+
+
+def list_extensions(fl, target):
+    """[(cfg node, value expr)] of the statements that add all elements of a value to the list `target` (canonical text) at its end:
+    target.extend(v), target += v, target = target + v (the loader writes this as +=), target[len(target):] = v"""
+    out = []
+    for n in fl.cfg.nodes:
+        if n.kind != "stmt":
+            continue
+        st = n.stmt
+        if isinstance(st, ast.Expr) and isinstance(st.value, ast.Call) and isinstance(st.value.func, ast.Attribute) and st.value.func.attr == "extend" \
+                and canon(st.value.func.value) == target and len(st.value.args) == 1:
+            out.append((n, st.value.args[0]))
+        elif isinstance(st, ast.AugAssign) and isinstance(st.op, ast.Add) and canon(st.target) == target:
+            out.append((n, st.value))
+        elif isinstance(st, ast.Assign) and len(st.targets) == 1 and isinstance(st.targets[0], ast.Subscript) and canon(st.targets[0].value) == target \
+                and isinstance(st.targets[0].slice, ast.Slice) and st.targets[0].slice.upper is None and st.targets[0].slice.step is None \
+                and st.targets[0].slice.lower is not None and canon(st.targets[0].slice.lower) == f"len({target})":
+            out.append((n, st.value))
+    return out
